@@ -60,6 +60,9 @@ class Rec:
         self.labels: set[str] = set()
         self.nontrivial = False
         self.info: dict[str, Any] = {}
+        # for checks that enumerate sub-cases themselves (e.g. every crash point of a scenario):
+        self.sub_evals = 0                 # executions beyond the case itself
+        self.sub_nontrivial: list = []     # keys of distinct non-trivial sub-cases
 
     def label(self, *names: str) -> None:
         self.labels.update(names)
@@ -206,6 +209,9 @@ def run_one(part: Part, case: Any, res: ShardResult, open_keys: set,
     for k, v in rec.info.items():
         if isinstance(v, int):
             res.info[k] += v
+    res.evals += rec.sub_evals
+    for k in rec.sub_nontrivial:
+        res.nontrivial.add(case_hash([case_hash(case), k]))
     if rec.nontrivial:
         res.nontrivial.add(case_hash(case))
         if want_sample and len(res.samples) < 2:
